@@ -948,7 +948,11 @@ class JSONEncoder:
 
 
 class JSONDecodeError(ValueError):
-    pass
+    """same constructor arity as json.JSONDecodeError (Darr re-raises type(e)(str))"""
+
+    def __init__(self, msg, doc, pos):
+        ValueError.__init__(self, msg)
+        self.msg, self.doc, self.pos = msg, doc, pos
 
 
 def _jnorm(o, enc, skipkeys, sort_keys, depth=0):
@@ -1027,14 +1031,14 @@ def loads(s, **kw):
     if isinstance(s, JsonText):
         return _jcopy(s.doc.obj)
     if isinstance(s, TornText) or s is TORN:
-        raise JSONDecodeError('torn JSON text')
+        raise JSONDecodeError('torn JSON text', '', 0)
     if isinstance(s, ReadmeToken):
-        raise JSONDecodeError('not JSON')
+        raise JSONDecodeError('not JSON', '', 0)
     if isinstance(s, str):
         try:
             return _realjson.loads(s)
         except ValueError as e:
-            raise JSONDecodeError(str(e))
+            raise JSONDecodeError(str(e), '', 0)
     raise TypeError('the JSON object must be str')
 
 
